@@ -534,6 +534,18 @@ func RunFormatStrings(c *Ctx, pkgs []string) {
 		switch x := e.(type) {
 		case *ast.BinaryExpr:
 			return x.Op == token.ADD && constCtx(fi, x.X, depth) && constCtx(fi, x.Y, depth)
+		case *ast.CallExpr:
+			// a conversion between string types keeps the text: string(grantType), oidc.GrantType(s)
+			if tv, ok := info.Types[x.Fun]; ok && tv.IsType() && len(x.Args) == 1 {
+				if bt, ok := tv.Type.Underlying().(*types.Basic); ok && bt.Info()&types.IsString != 0 {
+					if at := info.TypeOf(x.Args[0]); at != nil {
+						if ab, ok := at.Underlying().(*types.Basic); ok && ab.Info()&types.IsString != 0 {
+							return constCtx(fi, x.Args[0], depth)
+						}
+					}
+				}
+			}
+			return false
 		case *ast.Ident:
 			v, ok := info.Uses[x].(*types.Var)
 			if !ok || depth <= 0 || fi.Obj == nil || fi.Sig == nil || fi.Obj.Exported() || usedAsValue[fi.Obj] {
